@@ -103,7 +103,8 @@ def route_families():
 
 
 def shards(tier, seed):
-    return [("product1",), ("product2", 0), ("product2", 1), ("product2", 2), ("product2", 3), ("diag",), ("seps",), ("autoslot",), ("edits",), ("tcp",), ("drivers",), ("history",), ("pairs",), ("routestr",), ("msgroute",)]
+    return [("product1",), ("product2", 0), ("product2", 1), ("product2", 2), ("product2", 3), ("diag",), ("seps",), ("autoslot",), ("edits",), ("tcp",), ("drivers",), ("history",), ("pairs",), ("routestr",), ("msgroute",)] \
+        + [(k, "python-O") for k in ("product1", "diag", "seps", "autoslot", "edits", "tcp", "drivers", "routestr", "msgroute")]  # validation must not rest on assert statements
 
 
 def describe(tier, seed):
